@@ -469,6 +469,15 @@ class StmtMixin:
             pos = bound_var("_i", I)
             h.conds.append(z3.And(pos >= 0, pos <= n_len))
         envh = {"_i": Val(pos, "int"), "_seq": seq} if seq is not None else {"_i": Val(pos, "int")}
+        if seq is not None and spec.get("membership_lemma"):
+            # membership in the iterated sequence, related to positions (a fact about sequences that the solvers do not derive by themselves)
+            from .core import fresh_name
+            x = bound_var("mx", seq.t.sort().basis())
+            a = bound_var("ma", I)
+            w = z3.Function(fresh_name("mpos"), seq.t.sort().basis(), I)
+            h.conds.append(z3.ForAll([x], z3.Implies(z3.Contains(seq.t, z3.Unit(x)), z3.And(w(x) >= 0, w(x) < z3.Length(seq.t), seq.t[w(x)] == x)),
+                                     patterns=[z3.Contains(seq.t, z3.Unit(x))]))
+            h.conds.append(z3.ForAll([a], z3.Implies(z3.And(a >= 0, a < z3.Length(seq.t)), z3.Contains(seq.t, z3.Unit(seq.t[a]))), patterns=[seq.t[a]]))
         h = self.assume_invariants(h, spec, envh)
         if not self.feasible(h):
             return
